@@ -153,7 +153,7 @@ def numbers(doc, secnumdepth=2):
     def sec(s):
         c = SEC_COUNTER[s['level']]
         if s['star']:
-            out.append(('sec', None, None))
+            out.append(('sec', None, s.get('label')))
         elif s['level'] > secnumdepth:
             # LaTeX does not step counters of units deeper than secnumdepth
             out.append(('sec', None, s.get('label')))
